@@ -489,6 +489,43 @@ func (x *c19) sameTID(a, b *sim.RawClient) {
 	x.rec.FP("same-tid/%s-%s", transportName(a.IsTCP), transportName(b.IsTCP))
 }
 
+// sameTIDAllocate: two clients of one user (different 5-tuples, both without an allocation) send
+// Allocate requests that carry the same transaction id. A transaction id means something per
+// 5-tuple only: each gets an allocation of its own, reported with its own addresses.
+func (x *c19) sameTIDAllocate(a, b *sim.RawClient) {
+	if a == b || a.User != b.User {
+		return
+	}
+	for _, c := range []*sim.RawClient{a, b} {
+		if al, st := x.m.Alloc(c); al != nil && st != sim.Dead {
+			return
+		}
+		x.ensureNonce(c)
+	}
+	tid := x.w.NewTID()
+	relays := map[string]string{}
+	for _, c := range []*sim.RawClient{a, b} {
+		bb := wire.NewBuilder(wire.MethodAllocate, wire.ClassRequest, tid)
+		tr := byte(17)
+		if c.IsTCP && x.rng.Intn(2) == 0 {
+			tr = 6
+		}
+		bb.Add(wire.AttrRequestedTransport, []byte{tr, 0, 0, 0})
+		c.AddAuth(bb)
+		resp := x.m.AllocateRaw(c, sim.AllocOpts{Transport: tr}, bb.Bytes(), tid)
+		if resp == nil || resp.Class != wire.ClassSuccess {
+			continue // (the model has judged it)
+		}
+		if r, ok := sim.RelayAddrOf(resp); ok {
+			if other, dup := relays[fmt.Sprintf("%d/%s", tr, r)]; dup {
+				x.rec.Violate("alloc-relay-shared", "same-tid", "%s and %s (same user, same transaction id, different 5-tuples) were both told relayed address %s", other, c.Name, r)
+			}
+			relays[fmt.Sprintf("%d/%s", tr, r)] = c.Name
+		}
+	}
+	x.rec.FP("same-tid-allocate/%s-%s", transportName(a.IsTCP), transportName(b.IsTCP))
+}
+
 // evenPort: EVEN-PORT with reservation, then RESERVATION-TOKEN on another client.
 func (x *c19) evenPort(a, b *sim.RawClient) {
 	for _, c := range []*sim.RawClient{a, b} {
@@ -692,7 +729,11 @@ func runC19(t *testing.T, rng *rand.Rand, rec *sim.Rec, tier string, caseNo int)
 				x.rec.FP("family/%s/strict=%v/req%d/got%d", listen, strict, o.Family, a.Fam)
 			}
 		case 4:
-			x.sameTID(pick(rng, clients), pick(rng, clients))
+			if rng.Intn(3) == 0 {
+				x.sameTIDAllocate(pick(rng, clients), pick(rng, clients))
+			} else {
+				x.sameTID(pick(rng, clients), pick(rng, clients))
+			}
 		case 5:
 			if rng.Intn(4) == 0 {
 				// the same over a TCP control connection, for an RFC 6062 (TCP) relay
